@@ -95,6 +95,8 @@ func newImageIndexForImage(image bufimage.Image, options *imageFilterOptions) (*
 		pkg.files = append(pkg.files, imageFile)
 		fileName := imageFile.Path()
 		fileDescriptorProto := imageFile.FileDescriptorProto()
+		// Files that declare no types still need an (empty) entry.
+		index.FileTypes[fileName] = nil
 		index.ByDescriptor[fileDescriptorProto] = elementInfo{
 			fullName: pkg.fullName,
 			file:     imageFile,
